@@ -2,16 +2,18 @@
 (* Trace validation for C14.  One event = one abstract input with the bundle of  *)
 (* observed results; TLC decides every result against NrpsModules.tla and prints *)
 (* one REJECT line per failed clause.                                            *)
-(*  op "gene":  inp (domains), res = [exc, v |-> modules], rl = reloads           *)
+(*  op "gene":  inp (domains), res = [exc, v |-> modules], rl = reloads (module    *)
+(*              by module), rs = reloads through the saved results of the gene     *)
 (*  op "pair":  up, down (domains), pa, pb = [exc, v |-> modules] before,         *)
 (*              obs = sequence of [same, out |-> [exc, v |-> [merged,m,qa,qb]],   *)
-(*              rl] - one per strand combination; qa_eq / qb_eq = TRUE is a mere    *)
+(*              rl, rsa, rsb (saved results of either gene after a merge)] - one per strand combination; qa_eq / qb_eq = TRUE is a mere    *)
 (*              compression: the list equals pa / pb and is not repeated            *)
 EXTENDS NrpsModules, TLC, Json, IOUtils
 VARIABLE l
 Trace == ndJsonDeserialize(IOEnv.TRACE_FILE)
 
 GeneFailed(ev) == BuildClauses(ev.inp, ev.res, ev.rl)
+                  \cup (IF ev.res.exc = "" THEN ResultsReloadClauses(ev.res.v, ev.rs) ELSE {})
 
 Expand(ev, out) == [exc |-> out.exc,
                     v |-> [merged |-> out.v.merged, m |-> out.v.m,
@@ -22,6 +24,10 @@ PairFailed(ev) ==
     IF ev.pa.exc # "" THEN {"build/no_exception:" \o ev.pa.exc}
     ELSE IF ev.pb.exc # "" THEN {"build/no_exception:" \o ev.pb.exc}
     ELSE UNION {CombineClauses(ev.up, ev.down, ev.obs[k].same, ev.pa.v, ev.pb.v, Expand(ev, ev.obs[k].out), ev.obs[k].rl)
+                \cup (IF ev.obs[k].out.exc = "" /\ ev.obs[k].out.v.merged
+                      THEN ResultsReloadClauses(Expand(ev, ev.obs[k].out).v.qa, ev.obs[k].rsa)
+                           \cup ResultsReloadClauses(Expand(ev, ev.obs[k].out).v.qb, ev.obs[k].rsb)
+                      ELSE {})
                 : k \in DOMAIN ev.obs}
 
 Failed(ev) == CASE ev.op = "gene" -> GeneFailed(ev)
